@@ -381,6 +381,21 @@ pub struct EntriesIter {
     filter: Option<Box<dyn FnMut(&VfsEntry) -> bool>>,
 }
 
+/// Returns true when the followed link `entry` leads to the directory `open` that is already being
+/// read. On the real filesystem the link's target path can itself run through other links so the
+/// text of the two paths may differ although they name the same directory.
+fn same_dir(entry: &VfsEntry, open: &Path) -> bool {
+    if open == entry.path() {
+        return true;
+    }
+    if let VfsEntry::Stdfs(_) = entry {
+        if let (Ok(x), Ok(y)) = (std::fs::canonicalize(open), std::fs::canonicalize(entry.path())) {
+            return x == y;
+        }
+    }
+    false
+}
+
 impl EntriesIter {
     /// Enqueue the entry if it is a directory or a directory link and follow is true.
     /// None will be returned if the given entry was filtered out.
@@ -389,7 +404,7 @@ impl EntriesIter {
 
         if entry.is_dir() && (!entry.is_symlink() || self.opts.follow) {
             // Throw an error if link looping is detected
-            if entry.is_symlink() && self.iters.iter().any(|x| x.path() == entry.path()) {
+            if entry.is_symlink() && self.iters.iter().any(|x| same_dir(&entry, x.path())) {
                 return Some(Err(PathError::link_looping(entry.path()).into()));
             }
 
